@@ -125,9 +125,14 @@ def run_case(case: dict) -> dict:
         else:
             nontrivial = True
             counters["stable:success_compared"] = 1
-            y = res.get_variables(include_derived_variables=False, include_readouts=False, include_surrogate_variables=False).iloc[-1].to_dict()
-            fx = res.fluxes.iloc[-1].to_dict()
-            bad = check_success(net, params_now, y, fx, tol, rel)
+            try:
+                y = res.get_variables(include_derived_variables=False, include_readouts=False, include_surrogate_variables=False).iloc[-1].to_dict()
+                fx = res.fluxes.iloc[-1].to_dict()
+                bad = check_success(net, params_now, y, fx, tol, rel)
+            except Exception:  # noqa: BLE001
+                import traceback
+
+                bad = {"what": "the state and rates of a result reported as a successful steady state cannot be read", "error": traceback.format_exc()[-500:]}
             if bad:
                 viols.append(core.viol(bad.pop("what"), None, net=net.to_json(), y0=y0, tolerance=tol, rel_norm=rel, parameters=params_now, **bad))
         sample = {"net": net.to_json(), "y0": y0, "tolerance": tol, "rel_norm": rel}
